@@ -53,7 +53,39 @@ fn engine_shard(id: &str, tier: &str, seed: u64, replay: Option<&serde_json::Val
     let replay_case = replay.map(|r| r["replay"]["case"].as_u64().unwrap_or(0) as usize);
     if let Some(e) = e1_id(id) {
         let plan = checks_e1::plan_for(e, tier).unwrap();
-        return checks_e1::shard_run(&plan, seed, replay_case, shard);
+        let mut out = checks_e1::shard_run(&plan, seed, replay_case, shard);
+        if id == "C11" && out.found.is_empty() && replay.map(|r| r["replay"]["origin"] == "e2").unwrap_or(true) {
+            // concurrent part: AddSnapshot overlapping GetSnapshot / AddVersion / AddSnapshot under
+            // the controlled scheduler (E2); the snapshot read must be one whole generation
+            let e2 = checks_c03::shard_run("C11", tier, seed, replay, shard);
+            out.merge(e2);
+        }
+        if id == "C07" && replay.is_none() && out.found.is_empty() {
+            // accepted history must also survive overlapping requests (uncontrolled stress)
+            use stress::Mode;
+            let plan: Vec<(Mode, usize, usize)> = if tier == "thorough" {
+                vec![(Mode::LibMem, 8, 400), (Mode::LibSqlitePerThread, 8, 120), (Mode::LibSqliteShared, 8, 120), (Mode::SocketMem, 8, 120), (Mode::LibMem, 12, 400), (Mode::LibSqlitePerThread, 12, 120)]
+            } else {
+                vec![(Mode::LibMem, 8, 150), (Mode::LibSqlitePerThread, 6, 40)]
+            };
+            for (i, (m, t, n)) in plan.iter().enumerate() {
+                if !shard.mine(i + 1) {
+                    continue;
+                }
+                let so = stress::run(*m, *t, *n, seed.wrapping_add(77 + i as u64), i % 2 == 0);
+                if let Some(e) = so.error {
+                    out.errors.push(format!("stress: {e}"));
+                    continue;
+                }
+                out.cov.evaluations += so.recs.len() as u64;
+                out.cov.hit(format!("concurrent-immutability|{m:?}"));
+                match stress::check_immutability(&so) {
+                    Ok(n) => out.cov.count("accepted_versions_rechecked_after_stress", n),
+                    Err(msg) => out.found.push(evidence::Found { property: "C07".into(), signature: format!("C07:stress {}", msg.split_whitespace().take(6).collect::<Vec<_>>().join(" ")), msg: format!("stress {m:?} ({t} threads): {msg}"), replay: serde_json::json!({"origin": "stress", "case": i}) }),
+                }
+            }
+        }
+        return out;
     }
     match id {
         "C03" => checks_c03::shard_run("C03", tier, seed, replay, shard),
